@@ -6,7 +6,7 @@ var realLib = []string{"github.com/tdewolff/parse/v2 (working tree of /repo, unm
 
 func init() {
 	cfgs["C13"] = &propCfg{
-		quickRuns: 60000, thoroughRuns: 12000000,
+		quickRuns: 600000, thoroughRuns: 40000000,
 		quickBudget: 100 * time.Second, thoroughBudget: 14 * time.Minute,
 		requiredProbes: []string{
 			"probe_refill_unfinished_token", "probe_refill_inplace", "probe_refill_reuse_pool_block", "probe_refill_fresh_alloc",
@@ -27,7 +27,7 @@ func init() {
 	}
 
 	cfgs["C12"] = &propCfg{
-		quickRuns: 400000, thoroughRuns: 40000000,
+		quickRuns: 2000000, thoroughRuns: 200000000,
 		quickBudget: 100 * time.Second, thoroughBudget: 10 * time.Minute,
 		requiredProbes: []string{
 			"probe_terminator_borrowed", "probe_restore_after_borrow", "probe_ctor_reader_failed", "probe_ctor_reader_chunked",
@@ -42,6 +42,50 @@ func init() {
 		assumptions: []string{
 			"operation sequences respect the documented contract: start <= pos <= len, Restore only as the last call, PeekRune/MoveRune not issued at the end position itself",
 			"after construction there is no I/O left to fault: the history half is model-based exploration of a sequential API under the simulator's generator, replay and shrinker (DESIGN.md 3.2)",
+		},
+	}
+
+	cfgs["C19"] = &propCfg{
+		quickRuns: 400000, thoroughRuns: 24000000,
+		quickBudget: 150 * time.Second, thoroughBudget: 14 * time.Minute,
+		raceShare: 4, singleProc: true,
+		requiredProbes: []string{
+			"fault_truncated", "fault_short_read", "eof_with_data", "eof_with_exact_fit", "fault_error_with_data", "fault_error_without_data",
+			"probe_typed_read_ran_past_end", "probe_typed_read_straddles_end", "probe_mirror_runs", "probe_clone", "probe_iotest_runs",
+			"probe_ioerr_runs", "probe_ioerr_read_crossed_failure", "probe_ioerr_constructor_failed", "probe_bitmap_runs", "probe_bitmap_full_buffer",
+			"probe_parallel_runs", "probe_parallel_lock_contended", "probe_parallel_task_switches",
+		},
+		rule: "one run = one seeded history: typed writes through the real BinaryWriter (both byte orders, optional prefix), truncation at a tape-chosen byte, then typed reads / ReadBytes / Read / ReadAt / Seek / Clone on the real BinaryReader over one of 11 constructors (memory, reader with Bytes(), simulated ReadSeeker with and without size, simulated ReaderAt, ReadAll path, streaming reader, real file by handle and by path, mmap by path and by handle) with short reads and both EOF styles drawn per Read call; separate families: injected non-EOF failure at byte F, bitmap writer/reader, and 2-4 parallel ReadAt/Clone callers interleaved at every Seek/Read/ReadAt of the shared source by the seeded scheduler; non-trivial = truncated, or a short read / EOF-with-data / exact-fit EOF fired, or a failure was injected, or a bitmap run with >=1 bit, or a scheduled run with a contended lock or >=3 task switches; distinct = hash of (backend, byte order, operation-kind sequence, whence values, schedule)",
+		realStub: map[string][]string{
+			"real": append([]string{"parse.BinaryWriter, BinaryReader (+Clone), all five IBinaryReader backends incl. the sync.Mutex of the seeker backend, BitmapWriter/Reader", "the kernel's file and mmap implementation for the file backends"}, realLib...),
+			"stub": {"faultio.Reader / ReadSeeker / ReaderAt (simulated sources)", "caller tasks and the baton scheduler", "encoding/binary + bytes.Reader.Seek + testing/iotest.TestReader (reference models)"},
+		},
+		assumptions: []string{
+			"(0,nil) reads are not injected: BinaryReader turns them into an error and the property is silent about them",
+			"after the first read past the end no Seek is generated; Pos is then only required to stay within [0,size] with Pos+Len == size",
+			"under an injected non-EOF failure only: no panic, reads entirely before F right, never a non-zero value across F",
+			"Seek and ReadAt are not generated on the streaming io.Reader backend (documented unsupported); out-of-range Seek targets are not judged",
+			"faults below os.File/mmap (EIO, SIGBUS) are not injected",
+		},
+	}
+	cfgs["C20"] = &propCfg{
+		quickRuns: 30000, thoroughRuns: 2400000,
+		quickBudget: 150 * time.Second, thoroughBudget: 14 * time.Minute,
+		raceShare: 2, singleProc: true,
+		requiredProbes: []string{
+			"wl_css.Lexer", "wl_css.Parser", "wl_html.Lexer", "wl_xml.Lexer", "wl_json.Parser", "wl_js.Lexer", "wl_js.Parse+print+Walk", "wl_strconv", "wl_helpers",
+			"wl_Position/Error", "wl_Input+buffer.Lexer", "wl_StreamLexer", "wl_Indenter", "wl_BinaryWriter/Reader",
+			"probe_identical_inputs", "probe_fresh_process_compared", "probe_sched_task_switches", "probe_scheduled_runs",
+		},
+		rule: "one run = 2-6 caller tasks, each a deterministic workload (one of 14 entry-point families) over a private instance and private input from an embedded corpus, spliced/mutated/truncated from the tape, half of the runs with two tasks on byte-identical input; executed solo in order, interleaved one-at-a-time by the seeded baton scheduler (yield before every public call and inside every simulated reader/writer/visitor), solo again in reverse order, and for a sample in a fresh process; half of the workers run the same runs under the Go race detector, to which the scheduler is invisible; non-trivial = at least two tasks took at least two turns each; distinct = hash of (multiset of workload kinds, schedule projected on (task, yield site))",
+		realStub: map[string][]string{
+			"real": append([]string{"every package of the library: css, html, xml, json, js (lexer, parser, printer, Walk), strconv, buffer, parse helpers, Input, StreamLexer, BinaryReader/Writer, Indenter, Position/Error", "Go race detector"}, realLib...),
+			"stub": {"caller tasks (workloads)", "baton scheduler", "yielding reader / writer / visitor"},
+		},
+		assumptions: []string{
+			"inside one library call that touches no seam tasks are not interleaved; the race detector, to which the scheduler adds no happens-before edge, covers such calls regardless of the interleaving",
+			"a synchronised cache (sync.Pool/Once/mutex) is not a violation; only a wrong transcript, a changed exported package variable or a race report with a frame in the library is",
+			"a panic of the library is an outcome that is compared, not a failure of this check (crash freedom is property C01, not claimed)",
 		},
 	}
 }
